@@ -1,5 +1,4 @@
 #!/usr/bin/env bash
-# long background job: more seeds on the clean tree, then every seeded change
 cd "$(dirname "$0")/.."
-tools/seedsweep.sh "6 7 8 9"
 tools/seeds_all.sh
+tools/seedsweep.sh "10 11 12"
